@@ -121,15 +121,35 @@ package vgirpc
 //@   at call serializeBatchAsIPC assert [decision] !staysInline(batch, config)
 //@   ensures [inline] old(staysInline(batch, config)) ==> result0 == batch && result2 == 0 && result3 == nil
 
-// ---- C19, producer streams: the wire cap is soft: at every turn of the produce loop the bytes
-// already written are below max_response_bytes (so a response overshoots by at most the batches
-// of the turn that crosses the cap, and then returns (false, nil) for a continuation token).
-// The loop never consults the bytes written: the step obligation fails (recorded finding). ----
+// ---- C19, producer streams: the wire cap is soft: at every cycle of the produce loop after the
+// first, the bytes already in the response buffer are below max_response_bytes (so a response
+// overshoots by at most the batches of the cycle that crosses the cap, and the loop then returns
+// (false, nil) for a continuation token). Both production callers hand the loop the buffer their
+// IPC writer writes to. Every cycle's uploads are pre-flighted: a data batch is offered for
+// externalization only after checkExternalBudget passed for this cycle's own collector. ----
 //
 //@ func (*HttpServer).runProduceLoop
 //@   property C19
-//@   # (the first turn may start above the cap: header and init logs are already in the buffer)
-//@   loop 0 invariant [softcap] firstTick || h.maxResponseBytes <= 0 || wireBytes < h.maxResponseBytes
+//@   # (the first cycle may start above the cap: header and init logs are already in the buffer)
+//@   loop 0 invariant [softcap] firstTick || h.maxResponseBytes <= 0 || len(respBuf) == 0 || len(respBuf[0].buf) - respBuf[0].off < h.maxResponseBytes
+//@   pathvar checkedOut *OutputCollector
+//@   pathflag budgetPassed
+//@   at call (*HttpServer).checkExternalBudget setflag checkedOut arg1
+//@   at call (*HttpServer).checkExternalBudget setflag budgetPassed result == nil
+//@   at call (*HttpServer).checkExternalBudget assert [runningtotal] arg1 == out && arg3 == externalBytes
+//@   at call (*HttpServer).externalizeStreamDataBatch assert [preflighted] checkedOut == out && budgetPassed
+//
+//@ func (*HttpServer).handleStreamInit
+//@   property C19
+//@   pathvar wbuf *bytes.Buffer
+//@   at call ipc.NewWriter#1 setflag wbuf as(arg0, "*bytes.Buffer")
+//@   at call (*HttpServer).runProduceLoop assert [respbuffer] len(arg12) == 1 && arg12[0] == wbuf
+//
+//@ func (*HttpServer).handleProducerContinuation
+//@   property C19
+//@   pathvar wbuf *bytes.Buffer
+//@   at call ipc.NewWriter setflag wbuf as(arg0, "*bytes.Buffer")
+//@   at call (*HttpServer).runProduceLoop assert [respbuffer] len(arg12) == 1 && arg12[0] == wbuf
 
 // ---- C19, the unary and exchange call sites: the bytes measured against max_response_bytes are
 // the length of the very buffer that is then sent, both configured caps are the ones handed to
